@@ -73,6 +73,13 @@ def _malformed(entry: serializers.Entry, valid: bytes, rng: random.Random) -> by
     which the parser fails with anything else than a parse error is kept too: the endpoint has to answer it with exactly one parse error
     like any other malformed datagram (if it does not, the receive is logged as a crash, which the specification has no action for)."""
     proto = entry.datagram_protocol()
+    if "JSON" in entry.name and rng.random() < 0.2:
+        # documents that make the JSON decoder fail with something else than JSONDecodeError (RecursionError, int conversion limit)
+        hostile = rng.choice([b"[" * 6000, b"[" * 3000 + b"]" * 3000, b"9" * 5000, b'{"a":' * 2500 + b"1" + b"}" * 2500, b"[" + b"1" * 4400 + b"]"])
+        try:
+            proto.build_packet_from_datagram(hostile)
+        except Exception:  # noqa: BLE001
+            return hostile
     for cand in mutate.mutations(valid, rng, 8):
         try:
             proto.build_packet_from_datagram(cand)
@@ -447,6 +454,81 @@ def scenario_big(family: str, flavour: str, size: int) -> dict[str, Any]:  # siz
     return {"events": traces.uniform(events, EVD), "meta": f"{'UDPNetworkClient' if flavour == 'blocking' else 'AsyncUDPNetworkClient'} StringLineSerializer {family} {'EMPTY datagram' if size == 0 else f'datagram of {size} bytes'} between two small ones"}
 
 
+async def _scenario_async_empty_in(family: str, iterate: bool) -> dict[str, Any]:
+    """An EMPTY datagram sent by the peer to an AsyncUDPNetworkClient whose protocol does not accept it (JSON): exactly one parse error,
+    between two good packets.  (The asynchronous client cannot send an empty datagram itself on this interpreter - finding F13 - so the
+    receiving side is exercised on its own, with a blocking peer.)"""
+    import socket
+
+    from easynetwork.clients.async_udp import AsyncUDPNetworkClient
+    from easynetwork.exceptions import DatagramProtocolParseError
+    from easynetwork.lowlevel.api_async.backend._asyncio.backend import AsyncIOBackend
+    from easynetwork.protocol import DatagramProtocol
+    from easynetwork.serializers.json import JSONSerializer
+
+    fam = socket.AF_INET6 if family == "ipv6" else socket.AF_INET
+    host = "::1" if family == "ipv6" else "127.0.0.1"
+    a = socket.socket(fam, socket.SOCK_DGRAM)
+    b = socket.socket(fam, socket.SOCK_DGRAM)
+    events: list[dict[str, Any]] = []
+    try:
+        for s_ in (a, b):
+            s_.bind((host, 0))
+        a.connect(b.getsockname())
+        b.connect(a.getsockname())
+        a.setblocking(False)
+        b.setblocking(False)
+        protocol = DatagramProtocol(JSONSerializer())
+        packets = [{"n": 1}, {"n": 2}]
+        backend = AsyncIOBackend()
+        client = AsyncUDPNetworkClient(a, protocol, backend=backend)
+        await client.wait_connected()
+        it = client.iter_received_packets(timeout=2) if iterate else None
+
+        async def recv() -> None:
+            try:
+                if it is not None:
+                    pkt = await anext(it)
+                else:
+                    with backend.timeout(2):
+                        pkt = await client.recv_packet()
+            except DatagramProtocolParseError:
+                events.append({"ev": "recv", "kind": "err"})
+            except (TimeoutError, StopAsyncIteration):
+                events.append({"ev": "recv", "kind": "nothing"})
+            except Exception as exc:  # noqa: BLE001
+                events.append({"ev": "recv", "kind": "crash:" + type(exc).__name__})
+            else:
+                idx = next((i + 1 for i, p in enumerate(packets) if pkt == p), 0)
+                events.append({"ev": "recv", "kind": "pkt", "id": idx, "ok": idx > 0})
+
+        try:
+            for i, p in enumerate(packets):
+                await client.send_packet(p)
+                await asyncio.sleep(0.01)
+                got = []
+                try:
+                    got.append(b.recv(70000))
+                except BlockingIOError:
+                    pass
+                events.append({"ev": "send", "id": i + 1, "n": len(got), "ok": got == [protocol.make_datagram(p)]})
+                b.send(protocol.make_datagram(p))
+                await asyncio.sleep(0.01)
+                if i == 0:
+                    events.append({"ev": "inject"})
+                    b.send(b"")
+                    await asyncio.sleep(0.01)
+                await recv()
+                if i == 0:
+                    await recv()
+        finally:
+            await client.aclose()
+    finally:
+        a.close()
+        b.close()
+    return {"events": traces.uniform(events, EVD), "meta": f"AsyncUDPNetworkClient{'(iterator)' if iterate else ''} JSONSerializer {family}: an EMPTY datagram from the peer between two good ones"}
+
+
 def _fix_ids(t: dict[str, Any]) -> None:
     """Equal packets may occur twice in a scenario: attribute each delivery to the oldest matching packet not delivered yet."""
     for e in t["events"]:
@@ -490,6 +572,10 @@ def run(chk: Check) -> None:
             for size in sizes:
                 rec.append(scenario_big(family, flavour, size))
                 nbig += 1
+    for family in ("ipv4", "ipv6"):
+        for iterate in (False, True):
+            rec.append(asyncio.run(_scenario_async_empty_in(family, iterate)))
+            nbig += 1
     chk.extra["maximum_size_datagrams"] = nbig
     for t in rec:
         _fix_ids(t)
